@@ -1,6 +1,7 @@
 package main
 
 import (
+	"runtime"
 	"bytes"
 	"context"
 	"fmt"
@@ -562,7 +563,15 @@ func (ex *Exec) decideAll(obls []*Obligation, cfg SolveCfg) {
 			hard = append(hard, ob)
 		}
 	}
-	if len(hard) <= 12 {
+	// few stragglers: most likely slow, not failing -> a long, nearly sequential retry (longer still when
+	// the machine is busy); many: most likely a broken proof -> the shorter retry
+	if len(hard) <= 4 {
+		t := 6 * cfg.T2
+		if machineBusy() {
+			t = 12 * cfg.T2
+		}
+		parallel(hard, 2, func(ob *Obligation) { ex.decideRace(ob, cfg, t) })
+	} else if len(hard) <= 12 {
 		for _, ob := range hard {
 			ex.decideRace(ob, cfg, 3*cfg.T2)
 		}
@@ -597,4 +606,15 @@ func (ex *Exec) coverSat(ob *Obligation, cfg SolveCfg) string {
 		return "unsat"
 	}
 	return "unknown"
+}
+
+// machineBusy: 1-minute load average above three quarters of the CPUs
+func machineBusy() bool {
+	data, err := os.ReadFile("/proc/loadavg")
+	if err != nil {
+		return false
+	}
+	var l1 float64
+	fmt.Sscan(string(data), &l1)
+	return l1 > 0.75*float64(runtime.NumCPU())
 }
